@@ -962,3 +962,96 @@ pub fn replay(cl: Clause, kind: &str, input: &str) -> Result<Option<String>, Str
     let _ = kind;
     Ok(check(&o, &md, cl))
 }
+
+/* ---------------------------------------------------------------- K: renderCm vs format_commonmark */
+
+/// Byte-equality of the Lean `renderCm` with the real `format_commonmark` on parsed documents and
+/// directly built trees x random option vectors (all options, `experimental_minimize_commonmark` off:
+/// it re-runs parser and writer and is outside the model).
+pub fn run_k(rep: &mut crate::report::Report, seed: u64, n: usize) {
+    use crate::htmlk::gen_case;
+    use crate::model::{Batch, Model};
+    let m = Model::from_env();
+    let corpus = Corpus::load();
+    let mut rng = Rng::new(seed);
+    let mut done = 0;
+    while done < n {
+        let mut bt = Batch::new();
+        for _ in 0..2000.min(n - done) {
+            done += 1;
+            let (src, name) = if rng.chance(1, 3) {
+                let (md, _) = gen_doc(&mut rng, &corpus);
+                (crate::htmlk::Src::Doc(md), "cm-class-doc")
+            } else {
+                gen_case(&mut rng, &corpus)
+            };
+            let mut o = if rng.chance(1, 2) { gen_opts(&mut rng) } else { Opts::random(&mut rng) };
+            o.set("experimental_minimize_commonmark", false);
+            if rng.chance(1, 3) {
+                o.width = rng.range(1, 120);
+            }
+            let input = src.input(&o);
+            let c = o.to_comrak();
+            let r = src.with_root(&o, |root| {
+                let mut out = Vec::new();
+                format_commonmark(root, &c, &mut out).unwrap();
+                (out, crate::ser::ser_tree(root), crate::ser::kind_seq(root))
+            });
+            match r {
+                Err(e) => {
+                    if e.contains("parse_document") {
+                        rep.count("k-skipped-parser-panic(C01's subject)");
+                    } else if name == "direct-tree" {
+                        // ill-formed direct trees make format_commonmark panic (unreachable!/index): outside the model
+                        rep.count("k-skipped-writer-panic-on-direct-tree");
+                    } else {
+                        rep.fail("cm-total", "panic-on-parsed-document", input, e);
+                    }
+                }
+                Ok((real, wire, kinds)) => {
+                    rep.count(&format!("k-gen-{}", name));
+                    if kinds.len() > 1 {
+                        rep.nontrivial(&(kinds.clone(), o.width, o.ol_width, o.list_style));
+                    }
+                    for k in &kinds {
+                        rep.count(&format!("k-kind-{}", k));
+                    }
+                    if rep.samples.len() < 6 && kinds.len() > 3 {
+                        rep.sample(format!("K: {} opts [{}]", src.show(), o.describe()));
+                    }
+                    bt.push(format!("cm {} {}", o.wire(), wire), move |resp, rep| {
+                        rep.k_evals += 1;
+                        if resp != crate::util::hex(&real) {
+                            let mm = crate::util::unhex(resp).unwrap_or_default();
+                            rep.disagree("cm-bytes", input, crate::util::diff_window(&real, &mm));
+                        }
+                    });
+                }
+            }
+        }
+        bt.run(&m, rep);
+    }
+}
+
+pub fn replay_k(input: &str) -> Result<Option<String>, String> {
+    use crate::model::{Batch, Model};
+    let (o, src) = crate::htmlk::Src::parse_input(input).ok_or("bad replay input")?;
+    let c = o.to_comrak();
+    let (real, wire) = src.with_root(&o, |root| {
+        let mut out = Vec::new();
+        format_commonmark(root, &c, &mut out).unwrap();
+        (out, crate::ser::ser_tree(root))
+    })?;
+    let m = Model::from_env();
+    let mut rep = crate::report::Report::new("cm");
+    let mut bt = Batch::new();
+    let i2 = input.to_string();
+    bt.push(format!("cm {} {}", o.wire(), wire), move |resp, rep| {
+        if resp != crate::util::hex(&real) {
+            let mm = crate::util::unhex(resp).unwrap_or_default();
+            rep.disagree("cm-bytes", i2, crate::util::diff_window(&real, &mm));
+        }
+    });
+    bt.run(&m, &mut rep);
+    Ok(rep.k_disagree.first().map(|c| format!("{}: {}", c.kind, c.detail)))
+}
